@@ -32,6 +32,12 @@ def run(repo, res):
     # imports, with-targets) must be anchored at the *last* node of the value, i.e. after every read inside it
     from ..exprend import expr_end_semantics
     sem = expr_end_semantics(repo)
+    from ..exprend import expr_end_layouts
+    for text, ok, detail in expr_end_layouts(repo):
+        if ok is None:
+            raise AnalysisError('get_expr_end is outside the interpretable subset on %r: %s' % (text, detail))
+        res.check('C03-R3', 'get_expr_end on the layout %r' % text, ok, 'supp/util.py', 0, 'the visibility anchor of a binding must lie after every read inside its value expression in every layout: %s' % detail,
+                  sample='get_expr_end(%r) = start of the textually last node + 1 column' % text)
     for cls, verdict, detail in sem:
         if verdict == 'unknown':
             raise AnalysisError('get_expr_end is outside the interpretable subset: %s' % detail)
